@@ -1,6 +1,6 @@
 ---------------------------- MODULE UpdatesJudge ----------------------------
 (* Judge for C15.  Every recorded line is [case |-> c, got |-> g] with       *)
-(*   c = [kind, children, updates, t1, t2, tmax]   (the abstract case)       *)
+(*   c = [kind, children, updates, t1, t2, tmax, ts, com]  (the abstract case) *)
 (*   g.a1  = element after ApplyUpdatesUpTo(t1)           [err, erridx, children, pending] *)
 (*   g.a12 = the same element after a further ApplyUpdatesUpTo(t2)            *)
 (*   g.a2  = a fresh copy after ApplyUpdatesUpTo(t2)                          *)
@@ -8,6 +8,9 @@
 (*                  applied |-> LineString() of the copy behind a1 / a2,      *)
 (*                  state |-> the way after LineStringAt, crash]              *)
 (*   g.ls0, g.upto1, g.upto2, g.byts, g.byidx  (LineString, UpTo, sorts)      *)
+(*   g.own = the element's own [Timestamp, Committed] after the calls        *)
+(* c.ts / c.com (the element's own time) are rendered but appear in no Judge: *)
+(* the property does not mention them, so no answer may depend on them.      *)
 (*                                                                           *)
 (* Failed(ln) evaluates the Judge operators of Updates.tla (the property as  *)
 (* stated).  Diverged(ln) compares everything recorded with the Model; it is *)
@@ -57,6 +60,8 @@ Diverged(ln) ==
   \cup F("M_upto", g.upto1 = UpTo(ups, c.t1) /\ g.upto2 = UpTo(ups, c.t2))
   \cup F("M_byts", SameElems(g.byts, ups) /\ SortedByTime(g.byts))
   \cup F("M_byidx", SameElems(g.byidx, ups) /\ SortedByIndex(g.byidx))
+     \* no call touches the element's own time
+  \cup F("M_own", \A i \in 1 .. Len(g.own) : g.own[i] = <<c.ts, c.com>>)
   \cup (IF k # "way" THEN {} ELSE
            F("M_ls0", g.ls0 = LineString(chs))
       \cup F("M_lsapplied", g.g1.applied = LineString(g.a1.children) /\ g.g2.applied = LineString(g.a2.children))
